@@ -127,8 +127,8 @@ static byte b64char(byte v) // RFC 4648 alphabet, branch-free
 extern "C" int base64_roundtrip()
 {
   unsigned n = vf_pick(VF_B64N + 1);
-  byte d[8]; for(unsigned i = 0; i < n; ++i) d[i] = vf_u8();
-  char enc[16]; unsigned e = 0;
+  byte d[VF_B64N + 3]; for(unsigned i = 0; i < n; ++i) d[i] = vf_u8();
+  char enc[(VF_B64N + 3) / 3 * 4 + 4]; unsigned e = 0;
   for(unsigned i = 0; i < n; i += 3)
   {
     unsigned rem = n - i;
